@@ -649,6 +649,9 @@ func (c *Compiler) ExpandModules() (err error) {
 		g.AddVertex(mn)
 		verifPhase("imports", mn)
 		for _, i := range r.ChildrenByType(parse.NodeImport) {
+			if i.Name() == mn {
+				c.error(i, fmt.Errorf("import cycle detected [ %s ]", mn))
+			}
 			g.AddEdge(mn, i.Name())
 		}
 	}
@@ -732,6 +735,9 @@ func (c *Compiler) VerifyModuleIncludes(m parse.Node, submodules map[string]pars
 	}
 	for _, s := range submodules {
 		for _, i := range s.ChildrenByType(parse.NodeInclude) {
+			if i.Name() == s.Name() {
+				c.error(i, fmt.Errorf("cycle detected [ %s ]", s.Name()))
+			}
 			g.AddEdge(s.Name(), i.Name())
 		}
 	}
